@@ -86,6 +86,10 @@ type Vuln struct {
 	Introduced string `json:"introduced"` // "0" or a version
 	Fixed      string `json:"fixed,omitempty"`
 	Sev        string `json:"sev,omitempty"` // "", "high" (9.8), "low" (1.8)
+	// Versions is an explicit `versions` list of the affected entry (next to the range); EntrySev puts the severity
+	// on the affected entry instead of the record's top level.
+	Versions []string `json:"versions,omitempty"`
+	EntrySev bool     `json:"entrySev,omitempty"`
 }
 
 // Opts are the FixVulns filter options of a case (C12); the zero value plus DevDeps=true, MaxDepth=-1 is the default.
@@ -270,7 +274,8 @@ func (c *Case) pomXML() []byte {
 	}
 	pd, pm := section(OriginProfile, "        "), section(OriginProfileManagement, "          ")
 	pi := section(OriginProfileInactive, "        ")
-	if pd != "" || pm != "" || pi != "" {
+	pim := section(OriginProfileInactiveManagement, "          ")
+	if pd != "" || pm != "" || pi != "" || pim != "" {
 		b.WriteString("  <profiles>\n")
 		if pd != "" || pm != "" {
 			b.WriteString("    <profile>\n      <id>p1</id>\n      <activation>\n        <activeByDefault>true</activeByDefault>\n      </activation>\n")
@@ -282,8 +287,15 @@ func (c *Case) pomXML() []byte {
 			}
 			b.WriteString("    </profile>\n")
 		}
-		if pi != "" {
-			b.WriteString("    <profile>\n      <id>p2</id>\n      <dependencies>\n" + pi + "      </dependencies>\n    </profile>\n")
+		if pi != "" || pim != "" {
+			b.WriteString("    <profile>\n      <id>p2</id>\n")
+			if pim != "" {
+				b.WriteString("      <dependencyManagement>\n        <dependencies>\n" + pim + "        </dependencies>\n      </dependencyManagement>\n")
+			}
+			if pi != "" {
+				b.WriteString("      <dependencies>\n" + pi + "      </dependencies>\n")
+			}
+			b.WriteString("    </profile>\n")
 		}
 		b.WriteString("  </profiles>\n")
 	}
@@ -337,6 +349,8 @@ const (
 	OriginProfile           = "profile"            // <dependencies> of a profile that is active by default
 	OriginProfileManagement = "profile-management" // <dependencyManagement> of that profile
 	OriginProfileInactive   = "profile-inactive"   // <dependencies> of a second profile that is not active
+	// OriginProfileInactiveManagement: <dependencyManagement> of that inactive profile
+	OriginProfileInactiveManagement = "profile-inactive-management"
 )
 
 // CVSS vectors for the severity option.
@@ -366,11 +380,18 @@ func (c *Case) OSV() []*osvschema.Vulnerability {
 				Ranges:  []osvschema.Range{{Type: typ, Events: ev}},
 			}},
 		}
+		rec.Affected[0].Versions = append([]string(nil), v.Versions...)
+		var sev []osvschema.Severity
 		switch v.Sev {
 		case "high":
-			rec.Severity = []osvschema.Severity{{Type: osvschema.SeverityCVSSV3, Score: cvssHigh}}
+			sev = []osvschema.Severity{{Type: osvschema.SeverityCVSSV3, Score: cvssHigh}}
 		case "low":
-			rec.Severity = []osvschema.Severity{{Type: osvschema.SeverityCVSSV3, Score: cvssLow}}
+			sev = []osvschema.Severity{{Type: osvschema.SeverityCVSSV3, Score: cvssLow}}
+		}
+		if v.EntrySev {
+			rec.Affected[0].Severity = sev
+		} else {
+			rec.Severity = sev
 		}
 		out = append(out, rec)
 	}
